@@ -9,7 +9,7 @@ WHAT = {"clamp": "clamp<identity<long double 2>>: reported bounds and the clampe
         "affine": "affine<identity<long double 2>>: reported matrix and A x + t on exactly representable data"}
 
 
-def part(ctx, corr, ops, obligation, cfgs=("dbg", "rel")):
+def part(ctx, corr, ops, obligation, cfgs=("dbg", "rel"), compile_is_violation=False):
     jobs = [(C.VERIF / "harness" / "cpp" / "ld_harness.cpp", ctx.work.path(f"ld_{cfg}"), cfg, []) for cfg in cfgs]
     for (src, out, cfg, _), (rc, err) in zip(jobs, C.compile_many(jobs)):
         if rc != 0:
@@ -17,7 +17,7 @@ def part(ctx, corr, ops, obligation, cfgs=("dbg", "rel")):
             corr.add_obl(obligation, 1, 1)
             corr.violation(obligation, f"stacks with long double coordinates ({', '.join(ops)}) do not compile ({cfg}): {C.first_diag(err)}",
                            {"op": "longdouble", "ops": list(ops), "cfg": cfg, "diagnostic": err[-1500:]}, impl="does not compile", model="compiles",
-                           oracle_fails=False, key={"kind": "longdouble-compile"}, cfg=cfg)
+                           oracle_fails=compile_is_violation, key={"kind": "longdouble-compile"}, cfg=cfg)
             return
     for cfg in cfgs:
         outs, _ = C.run_lines(ctx.work.path(f"ld_{cfg}"), list(ops), timeout_per_line=2.0)
